@@ -205,6 +205,7 @@ type funcInfo struct {
 	neq       []Lin
 	substs    []substEntry
 	inOverflowProof bool
+	outEpoch, inEpoch map[*ssa.BasicBlock]map[string]string
 }
 
 func slotOf(v ssa.Value) (base ssa.Value, fname string, ok bool) {
@@ -442,6 +443,8 @@ func analyzeEpochs(fi *funcInfo) {
 			break
 		}
 	}
+	fi.outEpoch = out
+	fi.inEpoch = in
 }
 
 // ---------- terms
